@@ -110,7 +110,11 @@ func runWorkers(r *rt.Run, bin, sub string, stall time.Duration) {
 
 func runOneWorker(r *rt.Run, bin, sub string, shard, n int, slow bool, stall time.Duration) (died, last string) {
 	cmd := exec.Command(bin, sub, fmt.Sprint(shard), fmt.Sprint(n))
-	cmd.Env = append(os.Environ(), "VERIF_TIER="+r.Tier, "GOMAXPROCS=1", "GOTRACEBACK=single")
+	procs := "GOMAXPROCS=1"
+	if sub == "c05mp" {
+		procs = "GOMAXPROCS=4" // the pass that gives the library more than one processor to use
+	}
+	cmd.Env = append(os.Environ(), "VERIF_TIER="+r.Tier, procs, "GOTRACEBACK=single")
 	if slow {
 		cmd.Env = append(cmd.Env, "VERIF_SLOW=1")
 	}
@@ -221,6 +225,9 @@ func runC05(r *rt.Run) {
 		return
 	}
 	runWorkers(r, bin, "c05worker", 120*time.Second)
+	// the documents with many members once more in processes that have four
+	// processors (work the library hands to goroutines of its own must come back)
+	runWorkers(r, bin, "c05mp", 120*time.Second)
 	r.Bounds["workers"] = runtime.GOMAXPROCS(0)
 	r.Sample(rt.Case{Kind: "call", Op: "Contains", X: map[string]string{"recv": "LineString [(0,0),(1,0),(2,0)]", "arg": "LineString [(2,0),(1,0),(1,1)]"}})
 	r.Sample(rt.Case{Kind: "parsecall", Doc: `{"type":"Polygon","coordinates":[[[0,0],[1,1]]]}`, Cfg: "default"})
